@@ -1,12 +1,20 @@
 (* ProofRefineAll.v — one history theorem over the operations of all five data types and the key
    operations: the step theorems of ProofRefineStr / Hash / Set / List / ZSet put together. *)
-From Redka Require Import Base Db Ops Spec Abs Inv Refine ProofInv2 ProofRefineStr ProofRefineHash ProofRefineSet ProofRefineList ProofRefineZSet.
+From Redka Require Import Base Db ImplZSet Ops Spec Abs Inv Refine ProofInv2 ProofRefineStr ProofRefineHash ProofRefineSet ProofRefineList ProofRefineZSet ProofRefineZAlg.
 From Coq Require Import Floats Lia.
-From Redka Require ProofFloat.
+From Redka Require ProofFloat ProofFloatMid.
+
+Definition linsert_op (o : op) : bool :=
+  match o with LInsertAfter _ _ _ | LInsertBefore _ _ _ => true | _ => false end.
+(* a pivot insert takes the midpoint of two neighbouring positions: all stored positions are at most
+   2^1022 in magnitude (so that the sum of two is finite), and the midpoint was a new position *)
+Definition wf_linsert (now : Z) (o : op) (d : db) : Prop :=
+  linsert_op o = true ->
+  (forall x, In x (rlist d) -> ProofFloatMid.small (l_pos x) = true) /\ insert_free now o d.
 
 (* the operations that have a step theorem *)
 Definition covered (o : op) : bool :=
-  str_op o || key_op o || hash_op o || set_op o || list_op o || zset_op o.
+  str_op o || key_op o || hash_op o || set_op o || list_op o || zset_op o || zalg_op o || linsert_op o.
 
 (* the side conditions of the step theorems, at the state the operation runs in:
    arguments are Go values (ints in range, maps with distinct keys, scores that are numbers),
@@ -14,7 +22,7 @@ Definition covered (o : op) : bool :=
    rank lookups see number scores, rank deletion a table below 2^63 rows *)
 Definition step_ok (now : Z) (o : op) (d : db) : Prop :=
   wf_op o /\ int_ok o /\ wf_hop o /\ legal_choice now d o /\ wf_lop o /\
-  (is_push o = true -> push_free now o d) /\ wf_zop o /\ wf_zdb o d.
+  (is_push o = true -> push_free now o d) /\ wf_zop o /\ wf_zdb o d /\ wf_zalg o d /\ wf_linsert now o d.
 
 (* ... holding at every state the implementation reaches along the history *)
 Fixpoint side_ok (h : list (Z * op)) (d : db) : Prop :=
@@ -37,7 +45,7 @@ Section FloatFacts.
   Theorem all_step_refines : forall now o d s,
     covered o = true -> step_ok now o d -> Inv d -> R now d s -> step_refines now o d s.
   Proof.
-    intros now o d s Hc (W1 & W2 & W3 & W4 & W5 & W6 & W7 & W8) I HR.
+    intros now o d s Hc (W1 & W2 & W3 & W4 & W5 & W6 & W7 & W8 & W9 & W10) I HR.
     unfold covered in Hc.
     destruct (str_op o) eqn:E1; [apply C01_string_step_refines_partial; assumption|].
     destruct (key_op o) eqn:E2; [apply C06_key_step_refines; assumption|].
@@ -46,7 +54,12 @@ Section FloatFacts.
     destruct (list_op o) eqn:E5;
       [apply (C02_list_step_refines_partial fle_refl fle_trans fle_total flt_le feq_le fle_num fadd1_ge fsub1_le fzero_num); assumption|].
     destruct (zset_op o) eqn:E6; [apply C05_zset_step_refines_partial; assumption|].
-    discriminate Hc.
+    destruct (zalg_op o) eqn:E7; [apply C05_zalg_step_refines_partial; assumption|].
+    destruct (linsert_op o) eqn:E8; [|discriminate Hc].
+    { destruct (W10 E8) as [Hsm Hfree].
+      apply (C02_linsert_step_refines_bounded fle_refl fle_trans fle_total flt_le feq_le fle_num fadd1_ge fsub1_le
+               fzero_num ProofFloatMid.small ProofFloatMid.fmid_small); try assumption.
+      destruct o; try discriminate E8; exact Logic.I. }
   Qed.
 
   (* whole histories over all six families: same outputs, and the abstraction relation at the end *)
@@ -106,13 +119,16 @@ Definition demo_history : list (Z * op) :=
     (14, LPushFront "l" (AStr "w"));
     (15, ZAdd "z" (AStr "m") one);
     (16, ZGetRank "z" (AStr "m") false);
+    (16, ZAdd "y" (AStr "m") one);
+    (16, ZStore false GSum "x" ["z"; "y"]);
+    (16, LInsertAfter "l" (AStr "w") (AStr "mid"));
     (17, LPopBack "l");
     (18, KExpire "s" 5);
     (30, KExists "s");
     (31, KDelete ["h"; "e"]) ].
 
 Example demo_history_outputs :
-  map (fun x => o_err x) (snd (run_impl demo_history empty_db)) = repeat None 11
+  map (fun x => o_err x) (snd (run_impl demo_history empty_db)) = repeat None 14
   /\ snd (run_impl demo_history empty_db) = snd (run_spec demo_history []).
 Proof. vm_compute. split; reflexivity. Qed.
 
@@ -125,8 +141,21 @@ Proof.
   | |- covered _ = true => reflexivity
   | |- True => exact Logic.I
   end.
-  all: unfold step_ok; repeat split; try exact Logic.I; try reflexivity.
+  all: unfold step_ok; repeat match goal with |- _ /\ _ => split end.
+  all: try exact Logic.I; try reflexivity.
+  (* wf_linsert *)
+  all: try (intros HH; discriminate HH).
+  all: try (intros _; split;
+            [ intros x Hx; vm_compute in Hx; repeat (destruct Hx as [<-|Hx]; [vm_compute; reflexivity|]); destruct Hx
+            | intros c; vm_compute; discriminate ]).
+  (* wf_zalg *)
+  all: try (apply C05_wf_zalg_two_keys;
+            [ reflexivity | split; vm_compute; reflexivity
+            | vm_compute; repeat constructor | vm_compute; repeat constructor
+            | vm_compute; intros HH; discriminate HH ]).
+  (* push_free, legal_choice, wf_zop, wf_zdb *)
   all: try (intros _ c; vm_compute; discriminate).
+  all: try (vm_compute; exact Logic.I).
   all: try (vm_compute; constructor).
   all: try (vm_compute; repeat constructor; intros []).
 Qed.
